@@ -561,6 +561,9 @@ def check_c17(prog, rep, tier, cfg):
     # C17.e — "the bytes written equal BOM + encode(..)": what is left in the file is exactly what write_file produced — rewritten from
     # offset 0 and cut to the returned length on every success path, whatever the lengths of the old and new text (shared with C16.b)
     c16b(prog, rep, "C17.e")
+    # C17.f — what is decoded is this file's bytes only: the per-worker buffer is empty on every path on which decode_file appends the
+    # next file to it (a file rejected as malformed must not leave its bytes behind) — shared with C18.c
+    c18c(prog, rep, "C17.f")
 
 
 def c17a(prog, rep):
@@ -773,6 +776,10 @@ def check_c18(prog, rep, tier, cfg):
     c18d(prog, rep)
     c18e(prog, rep)
     c18f(prog, rep)
+    # C18.g — "the exit status is non-zero if and only if at least one file failed": every Err reaches the handler, the handler sets a
+    # flag (not a count that can wrap), main selects between two constant exit codes — shared with C16.e
+    from engine import AliasReport
+    c16e(prog, AliasReport(rep, [("C16.e", r"handler-sets-flag|two-exit-codes|main-calls-format|for_each:err->handler|^anchor:main|^anchor:for_each|^exit:", "C18.g")]))
 
 
 VEC_REMOVERS = ("retain", "retain_mut", "dedup", "dedup_by", "dedup_by_key", "remove", "swap_remove", "truncate", "drain", "pop", "clear", "split_off", "extract_if", "resize",
